@@ -57,7 +57,8 @@ POINTS = {
 REQUIRED_POINTS = list(POINTS)
 REQUIRED_CLAUSES = ["tuple.ranges", "tuple.recombines", "dms2deg.inverts",
                     "str.parses", "str.no-60", "str.sign-once-on-leading",
-                    "str.reads-back", "independent-of-object-tolerance"]
+                    "str.reads-back", "independent-of-object-tolerance",
+                    "unchanged-after-refused-print"]
 
 
 def shards(tier, seed):
@@ -225,6 +226,27 @@ def case_value(mon, v, ndecs, raw_input=None):
                     mon.cls("printing-carried", (v, ra, fancy, n_dec),
                             [v, n_dec, s])
     mon.check("operand-unchanged", a() == v, {"value": v, "after": a()})
+    # a refused print call (n_dec of the wrong type) leaves the Angle as it
+    # was: every decomposition and printed form afterwards is unchanged
+    try:
+        b = Angle(v)
+        before = (b(), b.dms_tuple(), b.ra_tuple(), b.dms_str(), b.ra_str(),
+                  b.dms_str(False, 3), b.ra_str(False, 3))
+        for bad in (2.0, None, "3", [1]):
+            for f in (b.ra_str, b.dms_str):
+                mon.evals += 1
+                try:
+                    f(n_dec=bad)
+                except Exception:
+                    pass
+        after = (b(), b.dms_tuple(), b.ra_tuple(), b.dms_str(), b.ra_str(),
+                 b.dms_str(False, 3), b.ra_str(False, 3))
+        mon.check("unchanged-after-refused-print", after == before,
+                  lambda: {"value": v, "before": repr(before)[:300],
+                           "after": repr(after)[:300]})
+    except Exception as e:
+        mon.dev("unchanged-after-refused-print", {"value": v,
+                                                  "raised": repr(e)})
     # the comparison tolerance of an Angle (set_tolerance, inherited by
     # copies) and earlier views of the same object do not take part in
     # decomposition or printing
